@@ -140,6 +140,11 @@ def run(ctx, res):
                 params = None
                 if rng.random() < 0.25 and kind in ("text", "caladdress", "uri"):
                     params = {rng.choice(["X-P", "LANGUAGE", "CN"]): rng.choice(["v", "a b", "x,y"])}
+                elif rng.random() < 0.2:
+                    # "arbitrary parameters" on every value kind: several names, list values, and None = "no such parameter"
+                    params = {}
+                    for pk in rng.sample(["X-P", "LANGUAGE", "CN", "ALTREP", "X-Q", "x-lower"], rng.randrange(1, 4)):
+                        params[pk] = rng.choice(["v", "a b", "x,y", ["a", "b"], "http://u/?q=1", None])
                 U = name.upper()
                 if U in per_name and per_name[U][0] != kind:
                     continue        # one kind per name keeps the expected value list simple
@@ -205,6 +210,11 @@ def run(ctx, res):
                                  observed=repr(g)[:200])
                 if params:
                     for pk, pv in params.items():
+                        if pv is None:
+                            if pk in g.params:
+                                res.fail("C02: a parameter given as None (= absent) appears after the round trip",
+                                         {"prop": U, "param": pk, "text": text[:600]}, observed=g.params.get(pk))
+                            continue
                         if g.params.get(pk) != pv:
                             res.fail("C02: a parameter is lost or changed", {"prop": U, "param": pk, "text": text[:600]}, observed=g.params.get(pk), expected=pv)
                 rt = rendered_type(kind, v)
